@@ -88,10 +88,15 @@ static void apply_bufmode(FILE *f, int mode) {
     else if (mode == 2) setvbuf(f, nullptr, _IOLBF, 256);
     else if (mode == 3) setvbuf(f, nullptr, _IOFBF, 16);
 }
-static FILE *open_wr(Task &t) {
+static FILE *open_wr(Task &t, bool becomes_stdout) {
     cookie_io_functions_t io = {nullptr, wr_cookie, nullptr, nullptr};
     FILE *f = fopencookie(&t, "w", io);
-    apply_bufmode(f, t.op->f.bufmode);
+    int mode = t.op->f.bufmode;
+    // glibc flushes a line-buffered `stdout` whenever ANY thread reads from an unbuffered or line-buffered
+    // stream. That is libc acting on the process-wide stdout object (shared caller data, outside C12's
+    // "disjoint caller data"), so the stream standing in for stdout is never line-buffered.
+    if (becomes_stdout && mode == 2) mode = 3;
+    apply_bufmode(f, mode);
     return f;
 }
 static FILE *open_rd(Task &t) {
@@ -338,7 +343,7 @@ void exec_api_op(Task &t, const Op &op, OpResult &r) {
         FILE *s = nullptr, *save = nullptr;
         bool stream = g_fn[op.fn].fam == FAM_SFMT;
         bool viastdout = stream && g_fn[op.fn].uses_stdio;
-        if (stream && A(0) >= 0) s = open_wr(t);
+        if (stream && A(0) >= 0) s = open_wr(t, viastdout);
         if (viastdout) { save = stdout; stdout = s; }
         auto call = [&](auto... x) -> int64_t {
             int rr = 0;
